@@ -407,3 +407,29 @@ def fresh_local_cases():
             ss = [p.local(["i"], [p.num(0)])] + prelude + [p.do(p.block([p.label("top")] + body + cnt + [p.if_([p.bin("<", p.id("i"), p.num(3))], [p.block([p.goto("top")])])]))]
         out.append((p, p.block(ss)))
     return out
+
+
+def fornum_coercion_cases():
+    """numeric for: init / limit / step as numbers, numeric strings (blanks, hex), non-numeric strings and other types,
+    as constants and in locals; the control variable is always a number"""
+    out = []
+    vals = {"n": lambda p, v: p.num(v), "s": lambda p, v: p.str(str(v)), "sb": lambda p, v: p.str(" %d " % v), "sx": lambda p, v: p.str("0x%x" % v if v >= 0 else str(v)),
+            "bad": lambda p, v: p.str("abc"), "nil": lambda p, v: p.nil(), "tab": lambda p, v: p.table([]), "bool": lambda p, v: p.true(), "empty": lambda p, v: p.str("")}
+    for ki, kl, ks, inlocal in itertools.product(["n", "s", "sb", "sx", "bad", "nil"], ["n", "s", "sx", "bad", "tab", "empty"], ["none", "n", "s", "bad", "bool"], [False, True]):
+        if (ki, kl, ks) == ("n", "n", "none") or (ki, kl, ks) == ("n", "n", "n"):
+            continue
+        p = Prog()
+        a, b = vals[ki](p, 2), vals[kl](p, 5)
+        c = None if ks == "none" else vals[ks](p, 2)
+        body = p.block([p.emit([p.id("i"), p.call(p.id("type"), [p.id("i")]), p.bin("+", p.id("i"), p.num(1))])])
+        if inlocal:
+            ss = [p.local(["a", "b", "c"], [a, b, c if c else p.num(1)])]
+            loop = p.fornum("i", p.id("a"), p.id("b"), p.id("c") if c else 0, body)
+        else:
+            ss = []
+            loop = p.fornum("i", a, b, c or 0, body)
+        ss.append(p.emit([p.str("r"), p.call(p.id("pcall"), [p.func([], p.block([loop, p.ret([p.str("done")])]))])]))
+        if inlocal:
+            ss.append(p.emit([p.str("kept"), p.call(p.id("type"), [p.id("a")]), p.call(p.id("type"), [p.id("b")])]))   # the variables themselves keep their strings
+        out.append((p, p.block(ss)))
+    return out
